@@ -21,6 +21,9 @@ type Case struct {
 	Cut      int         // causality: inputs after step Cut are replaced (or dropped)
 	Tail     [][]float64 // replacement inputs for steps Cut+1.. ([nInputs][T-Cut-1])
 	Truncate bool
+	// OwnInit: every run of this case starts from the states the model object itself hands out (InitialiseStates),
+	// as ow-single and the C entry point do, instead of a state row built by the harness
+	OwnInit bool `json:",omitempty"`
 }
 
 func genFor(model string) func(t *rapid.T) Case {
@@ -63,6 +66,7 @@ func genFor(model string) func(t *rapid.T) Case {
 			}
 		}
 		c.Truncate = rapid.Bool().Draw(t, "truncate")
+		c.OwnInit = rapid.IntRange(0, 2).Draw(t, "ownInit") == 0
 		if !c.Truncate && c.Cut < T-1 {
 			c.Tail = simref.DrawInputs(t, name, c.A.Cell, T-1-c.Cut)
 		}
@@ -75,12 +79,16 @@ func check(c Case) (r pbt.Result) {
 	desc := simref.New(name).Description()
 	r.Label("model:" + name)
 	st0 := c.A.State.Resolve(name, c.A.Cell)
-	out0, fin0 := simref.Run1(name, c.A.Cell, c.A.Inputs, append([]float64(nil), st0...))
 	// the state row given to the model must not be needed again: Resolve twice gives the same row
 	if d := simref.DiffBits("resolved states", c.A.State.Resolve(name, c.A.Cell), st0); d != "" {
 		r.Failf("%s: the same warm-up run gave different states: %s", name, d)
 		return
 	}
+	if c.OwnInit {
+		st0 = nil // Run1 / RunOn then ask the object for its initial states
+		r.Label("states-from-the-object's-InitialiseStates")
+	}
+	out0, fin0 := simref.Run1(name, c.A.Cell, c.A.Inputs, append([]float64(nil), st0...))
 	obj := simref.New(name)
 	out1, fin1, touched := simref.RunOn(obj, c.A.Cell, c.A.Inputs, append([]float64(nil), st0...))
 	if touched != "" {
@@ -98,7 +106,11 @@ func check(c Case) (r pbt.Result) {
 	objs := map[string]bool{name: true}
 	for _, h := range c.Hist {
 		if h.SameObject {
-			_, _, tch := simref.RunOn(obj, h.C.Cell, h.C.Inputs, h.C.State.Resolve(name, h.C.Cell))
+			hs := h.C.State.Resolve(name, h.C.Cell)
+			if c.OwnInit {
+				hs = nil
+			}
+			_, _, tch := simref.RunOn(obj, h.C.Cell, h.C.Inputs, hs)
 			if tch != "" {
 				r.Failf("%s: Run changed its %s", name, tch)
 				return
